@@ -87,6 +87,84 @@ fn api_wrappers(c: &Case, reference: &Result<Result<DataMatrix, DataEncodingErro
         });
         cmp("builder_defaults", sig_dm(&r), &want);
     }
+    if c.eci.is_none() {
+        // the builder's setters in a case-dependent order, each option first set to another value and then
+        // to the wanted one: a setter changes its own option and nothing else, and the last call wins
+        let c2 = c.clone();
+        let l = list();
+        let h = c.data.iter().fold((c.modes as usize) * 31 + (c.mask % 1009) as usize, |a, b| a.wrapping_mul(131).wrapping_add(*b as usize));
+        let r = guarded(move || {
+            let mut order = [0usize, 1, 2, 3];
+            let mut k = h % 24;
+            for i in 0..3 {
+                let j = i + k % (4 - i);
+                k /= 4 - i;
+                order.swap(i, j);
+            }
+            let mut b = if h / 24 % 2 == 0 { DataMatrixBuilder::new() } else { DataMatrixBuilder::default() };
+            let decoy = h / 48 % 3 != 0;
+            for o in order {
+                b = match o {
+                    0 => {
+                        if decoy { b = b.with_symbol_list(datamatrix::SymbolSize::Square144); }
+                        b.with_symbol_list(l.clone())
+                    }
+                    1 => {
+                        if decoy { b = b.with_encodation_types(modes_from_bits((c2.modes ^ 63) | 1)); }
+                        b.with_encodation_types(modes_from_bits(c2.modes))
+                    }
+                    2 => {
+                        if decoy { b = b.with_macros(!c2.macros); }
+                        b.with_macros(c2.macros)
+                    }
+                    _ => {
+                        if decoy { b = b.with_fnc1_start(!c2.fnc1); }
+                        b.with_fnc1_start(c2.fnc1)
+                    }
+                };
+            }
+            b.encode(&c2.data)
+        });
+        cmp("builder_setter_order", sig_dm(&r), &want);
+    }
+    if c.eci.is_none() && c.data.len() <= 40 {
+        // the string API with the same options: the message read as a string (bytes below 0x80 as they
+        // are, 0x80..0xBF as Latin-1 supplement characters, 0xC0.. as CJK ideographs) must be encoded as
+        // its Latin-1 bytes without ECI, or as its UTF-8 bytes behind the UTF-8 ECI, with exactly the
+        // caller's symbol list, mode set and flags
+        let st: String = c.data.iter().map(|&b| match b {
+            0..=0x7F => b as char,
+            0x80..=0xBF => char::from_u32(0xA0 + (b as u32 - 0x80) % 0x60).unwrap(),
+            _ => char::from_u32(0x4E00 + b as u32).unwrap(),
+        }).collect();
+        let mk = {
+            let (modes, mask, macros, fnc1) = (c.modes, c.mask, c.macros, c.fnc1);
+            move || DataMatrixBuilder::new()
+                .with_encodation_types(modes_from_bits(modes))
+                .with_symbol_list(list_from_mask(mask))
+                .with_macros(macros)
+                .with_fnc1_start(fnc1)
+        };
+        let st2 = st.clone();
+        let mk2 = mk.clone();
+        let got = guarded(move || mk2().encode_str(&st2));
+        let st3 = st.clone();
+        let exp = guarded(move || match datamatrix::data::utf8_to_latin1(&st3) {
+            Some(l1) => mk().encode_eci(&l1, None),
+            None => mk().encode_eci(st3.as_bytes(), Some(26)),
+        });
+        cmp("builder_encode_str", sig_dm(&got), &sig_dm(&exp));
+        // the reference itself must be what the property says: Latin-1 exactly for printable ISO-8859-1
+        let printable = st.chars().all(|ch| (0x20..=0x7E).contains(&(ch as u32)) || (0xA0..=0xFF).contains(&(ch as u32)));
+        let is_l1 = datamatrix::data::utf8_to_latin1(&st).is_some();
+        cmp("utf8_to_latin1_domain", format!("{}", is_l1), &format!("{}", printable));
+        if c.modes == 63 && c.macros && !c.fnc1 {
+            let st4 = st.clone();
+            let l = list();
+            let got = guarded(move || DataMatrix::encode_str(&st4, l));
+            cmp("encode_str", sig_dm(&got), &sig_dm(&exp));
+        }
+    }
     if !c.fnc1 {
         let c2 = c.clone();
         let l = list();
